@@ -110,7 +110,7 @@ fn boundary_lens(kid: u8, thorough: bool) -> Vec<usize> {
     } else {
         v.extend_from_slice(&[63, 64, 65, 127, 128, 129, 191, 192, 193, 255, 256, 257]);
         if thorough {
-            v.extend_from_slice(&[511, 512, 513, 1023, 1024, 1025]);
+            v.extend_from_slice(&[511, 512, 513, 1023, 1024, 1025, 2047, 2048, 2049, 4095, 4096, 4097]);
         }
     }
     v.sort();
@@ -1048,7 +1048,7 @@ fn gen_c14(ctx: &mut Ctx) {
                         _ => rand_val(ctx, k),
                     };
                     // decimal formatting of long vectors is quadratic in the model: cap the length
-                    if which == 0 && a.len > 400 {
+                    if which == 0 && a.len > (if ctx.thorough { 400 } else { 200 }) {
                         continue;
                     }
                     let mut c = Case::new(31).arg(which);
